@@ -411,11 +411,8 @@ fn rd_run(data: &[u8], ops: &str) -> (String, String) {
             });
             match res {
                 Some(x) => {
-                    let stop = x == "none";
+                    // a refused bytes() is followed like any other step: the cursor must not have moved
                     out.push(format!("{}={}:{}", op, x, r.len()));
-                    if stop {
-                        break;
-                    }
                 }
                 None => {
                     out.push(format!("{}=panic", op));
@@ -465,11 +462,6 @@ fn rd_run(data: &[u8], ops: &str) -> (String, String) {
                 }
                 _ => "bad-op".into(),
             };
-            let stop = x == "none";
-            if stop {
-                out.push(format!("{}={}:", op, x));
-                break;
-            }
             out.push(format!("{}={}:{}", op, x, d.len()));
         }
         out.join(";")
@@ -770,7 +762,7 @@ fn run(f: &[&str]) -> Option<String> {
                         let mut r = SliceReader::from(&buf[..]);
                         let mut out = vec![];
                         let mut n = 0;
-                        while !r.is_empty() && n < 64 {
+                        while !r.is_empty() && n < 4096 {
                             let before = r.len();
                             let res = Message::<&[u8]>::try_read_validate(&mut r, strict());
                             let stop = res.is_err();
@@ -1046,8 +1038,7 @@ fn run(f: &[&str]) -> Option<String> {
         "rd" => {
             let d = unhex(f.get(1)?)?;
             let (imp, refr) = rd_run(&d, f.get(2)?);
-            // the state after a refused bytes() is not pinned: the reference leaves the length blank there
-            let cmp_imp: String = imp.split(';').map(|x| if x.contains("=none:") { x[..x.rfind(':').unwrap() + 1].to_string() } else { x.to_string() }).collect::<Vec<_>>().join(";");
+            let cmp_imp: String = imp.clone();
             let orc = if cmp_imp == refr { "ok".to_string() } else { format!("FAIL:c18-reader:reference-says-{}", refr) };
             format!("{} | {}", cmp_imp, orc)
         }
